@@ -10,9 +10,8 @@ CONSTANTS
   KeySet = {}
   ValSet = {}
   HashVals = {}
-  IntKeys = {}
-  NegKeys = {}
+  RKeys = {}
   ShardCounts = {}
-INVARIANTS Accepted ModAccepted TableOK Total ClampDead BisectIsFirst Monotone ExactlyOne Ends
+INVARIANTS Accepted ModAccepted TableOK Total ClampDead BisectIsFirst Monotone InOwn Ends
 VIEW AView
 CHECK_DEADLOCK FALSE
